@@ -21,6 +21,7 @@ import (
 	"net"
 	"sort"
 	"sync"
+	"sync/atomic"
 	"testing"
 	"time"
 
@@ -259,6 +260,60 @@ func TestVerifC34(t *testing.T) {
 		}
 		wg.Wait()
 	}
+	// ---------------------------------------------------------------- truly concurrent threads of ONE client
+	// In the phases above the virtual clients are serialized by the monitor (their batching state is swapped in and
+	// out of the process-global variables). Here one virtual client stays resident and its threads call
+	// Thread.Timestamp at the same time, through a dbms whose replies are delayed by PRNG amounts, so that a fetch
+	// by one thread can still be under way when another thread needs one (replies may arrive in any order).
+	{
+		m.mu.Lock()
+		vc := &vclient{id: 1000}
+		prev := VerifTsSwap(vc.state)
+		if m.resident != nil {
+			m.resident.state = prev
+		}
+		m.resident = vc
+		nct := 4
+		if vk.Thorough() {
+			nct = 8
+		}
+		rounds := vk.N(4*30, 16*120)
+		var cc []*caller
+		for ti := 0; ti < nct; ti++ {
+			c := &caller{name: fmt.Sprintf("client-conc-thread-%d", ti), kind: "client-concurrent", vc: vc, th: NewThread(nil)}
+			c.th.SetDbms(&slowTsDbms{IDbms: local, r: vk.RandFor(3600, ti)})
+			c.phase = append(c.phase, 0)
+			cc = append(cc, c)
+		}
+		phaseInfo = append(phaseInfo, "concurrent threads of one client, delayed replies")
+		for rd := 0; rd < rounds; rd++ {
+			var wg sync.WaitGroup
+			for ti, c := range cc {
+				wg.Add(1)
+				go func(ti int, c *caller) {
+					defer wg.Done()
+					r := vk.RandFor(uint64(3700+ti), rd)
+					for i, n := 0, 1+r.IntN(12); i < n; i++ {
+						v := c.th.Timestamp()
+						if d, extra, ok := VerifTimestampParts(v); ok {
+							c.seq = append(c.seq, key(d, extra))
+						}
+					}
+				}(ti, c)
+			}
+			wg.Wait()
+			if rd%3 == 0 { // make the next round start with a fetch: the statement of core.tsExpire
+				st := VerifTsPeek()
+				st.Count = st.Limit + 1
+				VerifTsSwap(st)
+			}
+		}
+		rep.Count("concurrent_client_rounds", rounds)
+		rep.Count("concurrent_client_fetches", int(slowTsCalls.Load()))
+		rep.Count("concurrent_client_overlapping_fetches", int(slowTsOverlaps.Load()))
+		callers = append(callers, cc...)
+		m.mu.Unlock()
+	}
 	rep.Count("real_seconds", int(time.Since(t0).Seconds()))
 
 	// ---------------------------------------------------------------- verdict
@@ -360,6 +415,35 @@ func TestVerifC34(t *testing.T) {
 		rep.Sample(map[string]any{"caller": c.name, "first_values": around(c, 4)})
 		rep.Sample(map[string]any{"caller": callers[0].name, "first_values": around(callers[0], 4)})
 	}
+}
+
+// slowTsDbms delays the reply of Timestamp by a PRNG amount (0 - 300 microseconds, sometimes a few milliseconds).
+type slowTsDbms struct {
+	IDbms
+	mu sync.Mutex
+	r  *rand.Rand
+}
+
+var slowTsInflight, slowTsOverlaps, slowTsCalls atomic.Int64
+
+// Unwrap: Thread.Dbms() unwraps the dbms; the delaying wrapper is the thing to use
+func (d *slowTsDbms) Unwrap() IDbms { return d }
+
+func (d *slowTsDbms) Timestamp() SuDate {
+	slowTsCalls.Add(1)
+	if slowTsInflight.Add(1) > 1 {
+		slowTsOverlaps.Add(1) // another thread of the same client is fetching at the same time
+	}
+	defer slowTsInflight.Add(-1)
+	ts := d.IDbms.Timestamp()
+	d.mu.Lock()
+	us := d.r.IntN(300)
+	if d.r.IntN(8) == 0 {
+		us = 1000 + d.r.IntN(3000)
+	}
+	d.mu.Unlock()
+	time.Sleep(time.Duration(us) * time.Microsecond)
+	return ts
 }
 
 // startWire starts the real server on a free loopback port and returns a function that makes
